@@ -1,5 +1,8 @@
 // World: qlist and its wrappers qqueue, qstack, qgrow (C09; container for C11-C15)
 #include "wutil.h"
+#ifndef QSIM_STRUCT
+#define QSIM_STRUCT 1      // 0: this adapter is built without reading any private struct field (API-level oracles only)
+#endif
 #include <algorithm>
 #include <deque>
 extern "C" {
@@ -41,6 +44,9 @@ struct ListWorld : World {
         bool mtm = mode == "threads";
         int k = wpick(r, {{50, K_LIST}, {18, K_QUEUE}, {18, K_STACK}, {14, K_GROW}});
         if (mtm && k == K_GROW) k = K_LIST;
+#if !QSIM_STRUCT
+        k = K_LIST;
+#endif
         c.set("kind", k);
         c.set("ts", (mtm || mode == "lockbal") ? 1 : (r.chance(1, 5) ? 1 : 0));
         c.set("mt", mtm ? 1 : 0);
@@ -105,7 +111,11 @@ struct ListWorld : World {
     // index relative to the current length (sequential modes); a fixed small range when several threads run, where the length is not the caller's to read
     static int index_of(int a, size_t n, bool mt) { if (mt) return (a % 7) - 3; return (int)(a % (int)(2 * n + 5)) - (int)(n + 2); }
 
+#if QSIM_STRUCT
     qlist_t *base() const { return kind == K_LIST ? l : kind == K_QUEUE ? qq->list : kind == K_STACK ? qs->list : qg->list; }
+#else
+    qlist_t *base() const { return l; }
+#endif
 
     bool sut_create(Ctx &x) override {
         int opt = threadsafe ? QLIST_THREADSAFE : 0;
@@ -127,7 +137,7 @@ struct ListWorld : World {
         l = nullptr; qq = nullptr; qs = nullptr; qg = nullptr;
     }
     void sut_abandon() override { l = nullptr; qq = nullptr; qs = nullptr; qg = nullptr; }
-    void *sut_mutex() override { return base()->qmutex; }
+    void *sut_mutex() override { return nullptr; }
     bool sut_user_lock() override { InSutLock s; base()->lock(base()); return true; }
     void sut_force_unlock() override { InSutLock s; base()->unlock(base()); }
     void sut_probe(Ctx &) override { InSut s; qlist_t *b = base(); b->getat(b, 0, nullptr, false); }
@@ -141,7 +151,7 @@ struct ListWorld : World {
 
     Result sut_apply(const Op &op, Ctx &x) override {
         qlist_t *b = base();
-        size_t n = b->num;
+        size_t n = b->size(b);
         int idx = index_of(op.a, n, mt);
         int api = op.d & 7;
         switch (op.k) {
@@ -220,7 +230,10 @@ struct ListWorld : World {
         case L_TOSTRING: {
             // expected length from the list's own elements (a C-string reader cannot know it when NULs are embedded)
             size_t len = 0;
-            if (!mt) for (qlist_obj_t *o = b->first; o; o = o->next) len += o->size - ((((char *)o->data)[o->size - 1] == 0) ? 1 : 0);
+            if (!mt) {
+                Bookkeeping bk;
+                for (size_t i = 0; i < n; i++) { size_t es = 0; void *ep; { InSut s; ep = b->getat(b, (int)i, &es, false); } if (ep && es) len += es - ((((char *)ep)[es - 1] == 0) ? 1 : 0); }
+            }
             char *p;
             { InSut s; p = kind == K_GROW ? qg->tostring(qg) : l->tostring(l); }
             if (!p) return R_fail();
@@ -231,7 +244,7 @@ struct ListWorld : World {
             bool newmem = op.d & NEWMEM;
             if (op.k == L_LOCKEDWALK) { InSutLock s; l->lock(l); }
             qlist_obj_t o; memset(&o, 0, sizeof o);
-            Bytes out; size_t cnt = 0, guard = b->num * 2 + 8; bool failed = false; int fired_seen = sim_fault_fired(), retries = 0;
+            Bytes out; size_t cnt = 0, guard = b->size(b) * 2 + 8; bool failed = false; int fired_seen = sim_fault_fired(), retries = 0;
             for (;;) {
                 bool more; { InSut s; more = l->getnext(l, &o, newmem); }
                 if (!more && newmem && sim_fault_fired() > fired_seen && retries < 1) { fired_seen = sim_fault_fired(); retries++; x.st.add("probe.walk_step_retried_after_enomem"); continue; }
@@ -268,6 +281,9 @@ struct ListWorld : World {
     }
 
     void sut_struct(Ctx &x) override {
+#if !QSIM_STRUCT
+        (void)x; return;
+#else
         qlist_t *b = base();
         if (!b) return;
         size_t cnt = 0, sum = 0; qlist_obj_t *prev = nullptr;
@@ -280,6 +296,7 @@ struct ListWorld : World {
         if (cnt != b->num) x.fail("structure", "struct", "chain has " + num((long long)cnt) + " elements, size() says " + num((long long)b->num));
         if (sum != b->datasum) x.fail("structure", "struct", "byte total " + num((long long)b->datasum) + " differs from the elements' " + num((long long)sum));
         x.st.add("struct.checks");
+#endif
     }
 
     std::string render(const Op &op) const override {
